@@ -811,3 +811,240 @@ def run_pattern_rule(res, facts, tier):
             r.instances += 1
     r.note('%d token sequences (%d accepted)' % (len(inputs), n_acc))
     return r
+
+
+# ------------------------------------------------------------------------------------------------------------------ the tokenizer
+NPOS = 2 ** 64 - 1
+
+
+class LexError(Exception):
+    pass
+
+
+def is_ncname(s):
+    return bool(s) and (s[0].isalpha() or s[0] == '_') and all(ch.isalnum() or ch in '-_.' for ch in s)
+
+
+def ref_lex(s):
+    """XPath 1.0 3.7 lexing (longest match), delivered in the token convention of XPathExpression's queue"""
+    out, i, n = [], 0, len(s)
+    while i < n:
+        c = s[i]
+        if c in ' \t\r\n':
+            i += 1; continue
+        if c in '\'"':
+            j = s.find(c, i + 1)
+            if j < 0:
+                raise LexError('unterminated literal')
+            out.append(s[i:j + 1]); i = j + 1; continue
+        if c.isdigit() or (c == '.' and i + 1 < n and s[i + 1].isdigit()):
+            j = i
+            while j < n and s[j].isdigit():
+                j += 1
+            if j < n and s[j] == '.':
+                j += 1
+                while j < n and s[j].isdigit():
+                    j += 1
+            out.append(s[i:j]); i = j; continue
+        if s.startswith('..', i):
+            out.append('..'); i += 2; continue
+        if s.startswith('::', i):
+            out.append('::'); i += 2; continue
+        if s.startswith('!=', i):
+            out += ['!', '=']; i += 2; continue
+        if s.startswith('<=', i) or s.startswith('>=', i):
+            out += [c, '=']; i += 2; continue
+        if c in './|+-=<>*()[]@,':
+            out.append(c); i += 1; continue
+        if c == '$':
+            out.append('$'); i += 1
+            if i >= n or not (s[i].isalpha() or s[i] == '_'):
+                raise LexError('variable reference without a name')
+            continue
+        if c.isalpha() or c == '_':
+            j = i
+            while j < n and (s[j].isalnum() or s[j] in '-_.'):
+                j += 1
+            name = s[i:j]
+            if j < n and s[j] == ':' and not s.startswith('::', j):
+                if len(name) != 1:
+                    raise LexError('prefix not declared (the modelled resolver knows the one-letter prefixes)')
+                k = j + 1
+                if k < n and s[k] == '*':
+                    out += [name, ':']; i = k; continue        # '*' is delivered by the next round
+                m2 = k
+                while m2 < n and (s[m2].isalnum() or s[m2] in '-_.'):
+                    m2 += 1
+                if m2 == k or not is_ncname(s[k:m2]):
+                    raise LexError('prefix without a local part')
+                out += [name, ':', s[k:m2]]; i = m2; continue
+            out.append(name); i = j; continue
+        raise LexError('character ' + repr(c))
+    if not out:
+        raise LexError('empty expression')
+    return out
+
+
+class TMach(PMach):
+    def ev(self, e):
+        k = e['k']
+        if k == 'Bin' and e['op'] in ('-', '+') and 'unsigned long' in (e.get('ty') or ''):
+            a, b = self.ev(e['lhs']), self.ev(e['rhs'])
+            if isinstance(a, int) and isinstance(b, int):
+                return (a - b if e['op'] == '-' else a + b) % (2 ** 64)
+        if k == 'Un' and e['op'] in ('++', '--') and 'unsigned long' in (e.get('ty') or ''):
+            t = strip_casts(e['e'])
+            old = self.ev(t)
+            new = (old + (1 if e['op'] == '++' else -1)) % (2 ** 64)
+            self.assign(t, new)
+            return old if e.get('post') else new
+        return super().ev(e)
+
+
+class TWorld(World):
+    def call_this(self, m, a, c):
+        # same as World.call_this, with the tokenizer's machine
+        args = [m.ev(x) for x in c.get('args', [])]
+        env = {p['id']: v for p, v in zip(a['params'], args)}
+        te = {k: v for k, v in m.env.items() if isinstance(k, str) and k.startswith('.')}
+        env.update(te)
+        self.depth += 1
+        if self.depth > 12:
+            raise Unsupported('depth')
+        try:
+            sub = TMach(self, env)
+            sub.fuel = 3000
+            r = sub.call(a['body'])
+            for k in te:
+                m.env[k] = sub.env[k]
+            return r
+        finally:
+            self.depth -= 1
+
+    def glob(self, name):
+        n = name.split('::')[-1]
+        if n == 'npos':
+            return NPOS
+        if n == 's_XMLNamespaceSeparatorString':
+            return ':'
+        return super().glob(name)
+
+    def hook(self, m, c):
+        k = c['k']
+        n = c.get('n') or callee(c).split('::')[-1]
+        cls = c.get('cls') or ''
+        if k == 'Call' and n == 'substring' and len(c['args']) == 4:
+            s, st, en = m.ev(c['args'][0]), int(m.ev(c['args'][2])), int(m.ev(c['args'][3]))
+            if not (0 <= st <= en <= len(s)):
+                raise Unsupported('substring(%d, %d) of a string of %d' % (st, en, len(s)))
+            m.assign(strip_casts(c['args'][1]), s[st:en])
+            return 0
+        if k == 'Call' and n == 'isValidNCName':
+            return int(is_ncname(m.ev(c['args'][0])))
+        if k == 'MCall':
+            if n == 'isValidNCName':
+                return int(is_ncname(m.ev(c['args'][0])))
+            if n == 'getPooledString':
+                return m.ev(c['args'][0])
+            if n == 'getNamespaceForPrefix':
+                p = m.ev(c['args'][0])
+                return ('urn:' + p) if isinstance(p, str) and len(p) == 1 else 0
+            if cls.endswith('XPathExpression') and n == 'pushToken':
+                v = m.ev(c['args'][-1])
+                self.tokens.append(v if isinstance(v, str) else repr(v))
+                return 0
+            if cls.endswith('XPathExpression') and n in ('setCurrentPattern', 'resetTokenPosition'):
+                return 0
+            if cls.endswith('XalanDOMString') and n == 'assign' and len(c['args']) == 3:
+                s, st, ln = m.ev(c['args'][0]), int(m.ev(c['args'][1])), int(m.ev(c['args'][2]))
+                if not (0 <= st and st + ln <= len(s)):
+                    raise Unsupported('assign(%d, %d) from a string of %d' % (st, ln, len(s)))
+                m.assign(strip_casts(c['obj']), s[st:st + ln])
+                return 0
+            if cls.endswith('XalanDOMString') and n == 'empty':
+                v = m.ev(c['obj'])
+                return int(not v) if isinstance(v, str) else 0
+            if n == 'get' and 'GetCachedString' in cls:
+                return ''
+        if k == 'Ctor' and 'GetCachedString' in cls:
+            return ''
+        return super().hook(m, c)
+
+
+A1 = ['a', '1', '.', '-', ':', '*', ' ', '/', '$', "'"]
+A2 = ['a', '(', ')', '!', '=', '<', '@', '[', ']', '|', ' ', '1', ',']
+
+
+def run_tokenizer_rule(res, facts, tier):
+    r = res.rule('C02-R15', 'the tokenizer by interpretation: XPathProcessorImpl::tokenize with mapNSTokens and addToTokenQueue run on every string up to a bound over two small alphabets; '
+                 'for a string that is an XPath 1.0 expression the token queue is the lexical analysis of XPath 1.0 3.7 (longest match), and a string is accepted by '
+                 'tokenizer + grammar exactly when it is an expression', floor=5000)
+    a = [x for x in facts.asts('XPathProcessorImpl::tokenize', must=False) if x.get('body') is not None]
+    if len(a) != 1:
+        raise AnalysisBroken('XPathProcessorImpl::tokenize: %d bodies' % len(a))
+    a = a[0]
+    w = TWorld(facts)
+    deep = tier == 'thorough'
+    strings = []
+    for alpha, ln in ((A1, 5 if deep else 4), (A2, 4 if deep else 3)):
+        for n in range(1, ln + 1):
+            strings += [''.join(t) for t in itertools.product(alpha, repeat=n)]
+    strings += ['a:b', 'a:*', 'a::b', 'child::a:b', "a'x'", "'x'a", '1.5.2', '..5', '5..', 'a - b', 'a -b', 'a- b', '$a:b', '$ a', 'a:b:c', 'a :b', 'a: b', '1a', 'a.1', '.a', '-.5', '1e3', '"x\'y"', "'", '"',
+                'a!=b', 'a<=b', 'a>=1', 'a//b', '//a', 'a | b', '@a', '@ a', 'a[1]', 'a [ 1 ]', 'f(a,b)', 'f ( a , b )', 'a\tb', 'a\nand\nb', ' a', 'a ', 'ab٠', '١']
+    strings = sorted(set(strings), key=lambda x: (len(x), x))
+    reported = {}
+    for s in strings:
+        w.tokens = []; w.pos = 0; w.depth = 0; w.steps = 0
+        env = {a['params'][0]['id']: s, '.m_expression': 'EXPR', '.m_xpath': 'XPATH', '.m_constructionContext': 'CCTX', '.m_prefixResolver': 'RES', '.m_namespaces': PVec(),
+               '.m_token': '', '.m_tokenChar': 0}
+        m = TMach(w, env)
+        m.fuel = 4000
+        site = repr(s)
+        try:
+            try:
+                m.call(a['body'])
+                got = list(w.tokens)
+            except Reject as x:
+                got = None
+        except Unsupported as u:
+            raise AnalysisBroken('tokenize outside the interpreted subset on %s: %s' % (site, u))
+        lexerr = ''
+        try:
+            ref = ref_lex(s)
+        except LexError as x:
+            ref = None
+            lexerr = str(x)
+        want_ok = ref is not None and Ref(list(ref)).accept()
+        got_ok = got is not None and Ref(list(got)).accept()
+        kind = None
+        if want_ok and got != ref:
+            kind, what = 'expression tokenized differently', 'the queue is %s, XPath 1.0 3.7 gives %s' % (got, ref)
+        elif want_ok != got_ok:
+            kind = 'valid expression rejected' if want_ok else 'not an expression, accepted'
+            what = 'the queue is %s; XPath 1.0 %s' % (got, ('gives %s' % ref) if ref is not None else 'has no lexical analysis of this string')
+        if kind is None:
+            r.ok(site, 'expression' if want_ok else 'rejected')
+            continue
+        if kind == 'not an expression, accepted' and got is not None:
+            # one family, one site: '$' / prefix / ':' / local part are separate tokens of the queue, so white space between them goes unnoticed
+            squeezed = ''.join(ch for ch in s if ch not in ' \t\r\n')
+            try:
+                same = ref_lex(squeezed) == got
+            except LexError:
+                same = False
+            if same and any(t in ('$', ':') for t in got):
+                kind = 'white space inside a variable reference or a prefixed name test'
+                reported[kind] = reported.get(kind, 0) + 1
+                if reported[kind] == 1:
+                    r.violation("not an expression, accepted: white space inside '$name' or 'prefix:*'", "e.g. %s: the queue is %s, as for %r; in XPath 1.0 a variable reference and a name "
+                                "test are single tokens (VariableReference ::= '$' QName, NameTest ::= NCName ':' '*')" % (site, got, squeezed), common.file_line(a))
+                else:
+                    r.instances += 1
+                continue
+        reported[kind] = reported.get(kind, 0) + 1
+        if reported[kind] <= 4:
+            r.violation('%s: %s' % (kind, site), what, common.file_line(a))
+        else:
+            r.instances += 1
+    r.note('%d strings' % len(strings))
+    return r
